@@ -33,6 +33,9 @@ structure Request where
   method : Nat          -- index into the server's method table; out of range = the server has no such method
   versionOk : Bool      -- `_check_protocol_version` passes (always, when the server declares no version)
   paramsOk : Bool       -- `_deserialize_params` / `_validate_call_signature` / `_validate_params` pass
+  resultDecodes : Bool  -- CLIENT side, unary: `_validate_result` / `_deserialize_value` accept the value the server returns
+                        --   (false when the two Protocols differ: enum member unknown to the client, None for a non-optional
+                        --   result, a value of another type than the declared dataclass, …)
 deriving Repr, DecidableEq
 
 /-- client → server batches -/
@@ -221,7 +224,7 @@ deriving Repr, DecidableEq
 
 /-- the read the client is blocked in -/
 inductive Wait where
-  | unaryOpen | unaryRead | unaryDrain (r : Res)
+  | unaryOpen (dec : Bool) | unaryRead (dec : Bool) | unaryDrain (r : Res)      -- `dec`: the result value will decode
   | hdrOpen | hdrRead | hdrDrain (ok : Bool) | hdrAbortDrain | abortOpen | abortDrain
   | sessOpen (p : Purpose) | sessRead (p : Purpose)
   | closeOpen (r : Res) | sessDrain (r : Res) (cb : Bool)
@@ -255,7 +258,7 @@ def reqFrames (r : Request) : List CFr := [.op, .it (.req r), .eos]
 /-- what an operation does before its first blocking read -/
 def cliStart (op : Op) (c : Cli) : Cli × List CFr :=
   match op with
-  | .call r => ({ c with nlog := 0, res := .none, w := some .unaryOpen }, reqFrames r)
+  | .call r => ({ c with nlog := 0, res := .none, w := some (.unaryOpen r.resultDecodes) }, reqFrames r)
   | .open_ r hdr =>
     if hdr then ({ c with nlog := 0, res := .none, sess := none, w := some .hdrOpen }, reqFrames r)
     else ({ c with nlog := 0, res := .opened, sess := some .fresh, w := none }, reqFrames r)
@@ -291,15 +294,19 @@ def updSess (c : Cli) (f : Sess → Sess) : Cli := { c with sess := c.sess.map f
 /-- reaction to one received frame while blocked in `w` -/
 def cliOn (sh : Shape) (pol : Nat → Bool) (c : Cli) : Wait → SFr → Cli × List CFr
   -- unary caller: `ipc.open_stream`, `_read_unary_response`
-  | .unaryOpen, .op => c.wait .unaryRead
-  | .unaryOpen, _ => c.fin .transport
-  | .unaryRead, .it .log =>
+  | .unaryOpen d, .op => c.wait (.unaryRead d)
+  | .unaryOpen _, _ => c.fin .transport
+  | .unaryRead _, .it .log =>
       let c' := { c with nlog := c.nlog + 1 }
       if pol c.nlog then (if sh.unaryDrainOnCb then c'.wait (.unaryDrain .raised) else c'.fin .raised) else (c', [])
-  | .unaryRead, .it .err => c.wait (.unaryDrain .error)
-  | .unaryRead, .it .data => c.wait (.unaryDrain .value)
-  | .unaryRead, .eos => c.fin .raised
-  | .unaryRead, .op => c.fin .transport
+  | .unaryRead _, .it .err => c.wait (.unaryDrain .error)
+  | .unaryRead d, .it .data =>
+      -- the result batch: `_drain_stream(reader)`, then `as_py` / `_validate_result` / `_deserialize_value`
+      if d then c.wait (.unaryDrain .value)
+      else if sh.unaryDrainBeforeDecode then c.wait (.unaryDrain .raised)
+      else c.fin .raised                       -- the decode raises with the rest of the response still unread
+  | .unaryRead _, .eos => c.fin .raised
+  | .unaryRead _, .op => c.fin .transport
   | .unaryDrain _, .it _ => (c, [])
   | .unaryDrain r, .eos => c.fin r
   | .unaryDrain _, .op => c.fin .transport
